@@ -27,8 +27,9 @@ POOLS = {
     'float': lambda n: n + 0.5,
     'neg':   lambda n: -1 - n,
     'mixed': lambda n: [n, 'm%d' % n, (n,), n + 0.25, ('t', n), 's p%d' % n][n % 6],
+    'intstr': lambda n: n if n % 2 == 0 else 'v%d' % n,
 }
-POOL_NAMES = list(POOLS)
+POOL_NAMES = ['int', 'str', 'tuple', 'float', 'neg', 'mixed']
 
 
 class Names:
@@ -37,7 +38,7 @@ class Names:
         self.pool = pool
         self.f = POOLS[pool]
         self.rev = {}
-        for n in range(0, 400):
+        for n in range(0, 1100):
             o = self.f(n)
             self.rev[(type(o), o)] = 'u%d' % n
         self.seen = {}     # str(obj) -> set of tokens whose object has that str()
@@ -92,7 +93,7 @@ def _hashable(o):
 # ---------------------------------------------------------------------------------------------------------
 # attribute dict encoding: model key k <-> 'k<k>', model value v <-> v (int) or VALS[v-1000]
 # ---------------------------------------------------------------------------------------------------------
-VALS = ['', 'héllo ✓', [1, [2, 3]], {'n': None}, 1.5, True, None, [], {}, 'x' * 40, {'a': [1, {'b': 2}]}, -7]
+VALS = ['', 'héllo ✓', [1, [2, 3]], {'n': None}, 1.5, True, None, [], {}, 'x' * 40, {'a': [1, {'b': 2}]}, [0.5, 'z']]
 
 
 def val_obj(v):
@@ -403,7 +404,7 @@ class Executor:
             e = self.embs[h]
             p = e[self.name(t[2])]
             if isinstance(e, TriangularLatticeEmbedding):
-                return 'ok [' + ','.join(repr(float(x)) for x in p) + ']'
+                return 'ok [' + ','.join(str(x) if type(x) is int else repr(float(x)) for x in p) + ']'
             return 'ok [' + ','.join(fmt_num(x) for x in p) + '] calls=%d' % e.calls
         if op == 'clearpos':
             self.embs[h].clearPositions(); return 'ok -'
